@@ -112,6 +112,20 @@ def gen_setops(ops, with_trees=False):
                         cases.append(dump([op, a, b]))
                         if op in ('isect', 'diff'):
                             cases.append(dump(['within', [op, a, b], pr])); cases.append(dump(['sat', [op, a, b], pr]))
+        if any(o in ops for o in ('isect', 'allows_any', 'allows_all')):
+            # BOTH operands with three alternatives, in every order (nested, overlapping, disjoint intervals): index arithmetic, early exits and
+            # pruning in the Range-level loops are right for one alternative or for sorted ones, and wrong here
+            L6 = ['1.x', '2.x', '3.x', '1.2.x', '2.2.x', '>=1.5.0 <2.5.0']
+            tri = [' || '.join(t) for t in itertools.permutations(L6, 3)]
+            pr33 = [V(0, 9, 0), V(1, 0, 0), V(1, 2, 5), V(1, 5, 0), V(1, 9, 0), V(2, 0, 0), V(2, 2, 5), V(2, 4, 0), V(2, 9, 0), V(3, 0, 0), V(3, 2, 5), V(4, 0, 0)]
+            et = [E_parse(t) for t in tri]
+            cases += membership_cases(et, pr33)
+            for a in et:
+                for b in et:
+                    for op in ops:
+                        if op == 'diff': continue
+                        cases.append(dump([op, a, b]))
+                        if op == 'isect': cases += membership_cases([['isect', a, b]], pr33)
         if 'diff' in ops:
             # one interval minus THREE alternatives in every order and nesting (points, closed and half-open intervals over four inner versions):
             # the pieces left by the first two alternatives meet the third -- state that exists only inside one call of Range::difference
